@@ -4,15 +4,11 @@ float products.
 -/
 import PcModel.Params
 import PcProofs.Roots
+import PcProofs.FormulasBase
 import Mathlib.Tactic.Linarith
 import Mathlib.Tactic.Ring
 
 namespace Pc
-
-theorem isqrtN_eq (x : ℕ) : isqrtN x = Nat.sqrt x := isqrtLoop_eq_sqrt x _
-
-theorem irootN_spec (n x : ℕ) (hn : 1 ≤ n) : (irootN n x) ^ n ≤ x ∧ x < (irootN n x + 1) ^ n :=
-  irootLoop_spec n x _ hn
 
 /-- for x ≥ 64 there is room for x^(1/3) < y < x^(1/2): ⌊x^(1/3)⌋ + 2 ≤ ⌊√x⌋ -/
 theorem root_gap (x : ℕ) (hx : 64 ≤ x) : irootN 3 x + 2 ≤ isqrtN x := by
